@@ -287,6 +287,8 @@ impl Sender {
             credits.take(1);
 
             let msg = PortEvt::SendData { remote_port: self.remote_port, data, first: true, last: true };
+            #[cfg(remoc_verif)]
+            msg.verif_enq();
             permit.send(msg);
         } else {
             let mut first = true;
@@ -310,6 +312,8 @@ impl Sender {
                     first,
                     last: data.is_empty(),
                 };
+                #[cfg(remoc_verif)]
+                msg.verif_enq();
                 permit.send(msg);
 
                 first = false;
@@ -338,6 +342,8 @@ impl Sender {
                     let permit = self.tx.try_reserve()?;
                     credits.take(1);
                     let msg = PortEvt::SendData { remote_port: self.remote_port, data, first: true, last: true };
+                    #[cfg(remoc_verif)]
+                    msg.verif_enq();
                     permit.send(msg);
                     Ok(())
                 }
@@ -361,6 +367,8 @@ impl Sender {
                             first,
                             last: data.is_empty(),
                         };
+                        #[cfg(remoc_verif)]
+                        msg.verif_enq();
                         permit.send(msg);
 
                         first = false;
@@ -432,6 +440,8 @@ impl Sender {
                 wait,
                 ports: ports_response,
             };
+            #[cfg(remoc_verif)]
+            msg.verif_enq();
             permit.send(msg);
 
             ports_response = next;
@@ -512,6 +522,8 @@ impl<'a> ChunkSender<'a> {
 
             let msg =
                 PortEvt::SendData { remote_port: self.sender.remote_port, data, first: self.first, last: finish };
+            #[cfg(remoc_verif)]
+            msg.verif_enq();
             permit.send(msg);
 
             self.first = false;
@@ -535,6 +547,8 @@ impl<'a> ChunkSender<'a> {
                     first: self.first,
                     last: data.is_empty() && finish,
                 };
+                #[cfg(remoc_verif)]
+                msg.verif_enq();
                 permit.send(msg);
 
                 self.first = false;
